@@ -75,6 +75,8 @@ var renderings = map[int][]rendering{
 		{"[]", "for=\"[\"", "", ""},
 		{"1.1.1.1.1", "for=\"]\"", "", ""},
 		{"::ffff:", "for=;for=8.8.8.8", "", ""},
+		{"8.8.8.8%a%b", `for="8.8.8.8%a%b"`, "", ""}, // two percent signs: not an address with a zone
+		{"[fe80::1%eth0%x]:80", `for="[fe80::1%eth0%x]:80"`, "", ""},
 	},
 	6: { // unspec
 		{"0.0.0.0", "for=0.0.0.0", "", ""},
